@@ -14,21 +14,30 @@ PRECISION_TUPLES = [t for r in (1, 2, 3) for sub in itertools.combinations((2, 4
 
 
 def gen_mps_program(rng, depth=None, allow_add=True, allow_dw=True, max_c=6, small=False,
-                    allow_reuse=False):
+                    allow_reuse=False, family='2d'):
     """2D program from the MPS-supported subset of the grammar: Conv2d (incl. depthwise), Linear,
     Conv-BN, Linear-BN, ReLU, pooling, flatten, residual add.  No concat, single input."""
     for _ in range(100):
-        b = pitgen.Builder(rng, '2d', {'max_c': max_c, 'max_f': 8, 'pmodes': True})
+        b = pitgen.Builder(rng, family, {'max_c': max_c, 'max_f': 8, 'pmodes': True})
         c0 = rng.randint(1, 3)
         H, W = (rng.randint(4, 6), rng.randint(4, 6)) if small else (rng.randint(5, 9), rng.randint(5, 9))
-        b.shapes['x0'] = (c0, H, W)
+        if family == '1d':
+            # Conv1d networks (MPSConv1d / QuantConv1d): un-padded or 'same'-padded convolutions
+            H = rng.randint(8, 14)
+            b.shapes['x0'] = (c0, H)
+        else:
+            b.shapes['x0'] = (c0, H, W)
         b.origin['x0'] = 'input'
         t = 'x0'
         try:
             for _i in range(depth or rng.randint(1, 4)):
                 r = rng.random()
                 if r < 0.5:
-                    o = b.conv(t, s=rng.choice([1, 1, 2]))
+                    if family == '1d':
+                        o = b.conv(t, s=1, pad=rng.choice(['same', 'none']), d=1,
+                                   k=rng.choice([1, 3, 3, 5]))
+                    else:
+                        o = b.conv(t, s=rng.choice([1, 1, 2]))
                     if o is None:
                         continue
                     t = o
@@ -73,7 +82,9 @@ def gen_mps_program(rng, depth=None, allow_add=True, allow_dw=True, max_c=6, sma
                 else:
                     t = b.pool(t, rng.choice(['max', 'avg']))
             shp = b.shapes[t]
-            n = shp[0] * shp[1] * shp[2]
+            n = 1
+            for v in shp:
+                n *= v
             if n > 300 or rng.random() < 0.4:
                 t = b.pool(t, 'aavg')
             t = b.flat(t)
@@ -83,7 +94,8 @@ def gen_mps_program(rng, depth=None, allow_add=True, allow_dw=True, max_c=6, sma
                     t = b.bn(t)
                 t = b.act(t, 'relu_f')
             t = b.lin(t, fout=rng.randint(2, 5))
-            prog = {'family': '2d', 'inputs': [[c0, H, W]], 'ops': b.ops, 'out': t, 'excluded': [],
+            prog = {'family': family, 'inputs': [list(b.shapes['x0'])], 'ops': b.ops, 'out': t,
+                    'excluded': [],
                     'features': sorted(b.features), 'traits': []}
             if not any(op['op'] == 'conv' for op in prog['ops']):
                 continue
